@@ -95,8 +95,11 @@ theorem top_sim (all : List String) (tef : C.TyEnv) (glf : List (String × Ty ×
           exact houtb
         · obtain ⟨lb, hlb⟩ : ∃ lb, acc1.setup = lb ++ acca.setup := ⟨lb0, hlb0⟩
           refine ⟨lb ++ la, by rw [hlb, hla, List.append_assoc], ?_⟩
-          rw [List.reverse_append, execList_append_err _ hc1]
-          right; rfl
+          rw [List.reverse_append]
+          right
+          rcases hc1 with hc1 | hc1
+          · rw [execList_append_err _ hc1]; exact .inl rfl
+          · rw [execList_append_err _ hc1]; exact .inr rfl
   | assign x e =>
     intro acc acc1 te1 f stp stc stp' hle h2 h hall hsub hgl hst hP hpy hfl
     obtain ⟨hwt, hc⟩ := trTop_assign_cases h2 h
@@ -129,7 +132,7 @@ theorem top_sim (all : List String) (tef : C.TyEnv) (glf : List (String × Ty ×
           have hcvv : cv = C.conv (inferTy acc.te e) v := by
             rcases expr_sim tef [] [] (Rel_nil _ _) e v hwf hv0 with hc | hc
             · rw [hc] at hcv; cases hcv; rw [htyf]
-            · rw [hc] at hcv; cases hcv
+            · exact absurd hcv (UB_not_ok hc)
           refine ⟨stc, rfl, ⟨hst.tr, hst.fl, ?_⟩, ?_⟩
           · intro y ty hy pv hpv
             by_cases hyx : y = x
